@@ -20,7 +20,9 @@ from ..astdb import AnalysisBroken, where
 
 
 class _Ret(Exception):
-    pass
+    def __init__(self, v=None):
+        Exception.__init__(self)
+        self.v = v
 
 
 def rule_D8(chk, lib, dirs):
@@ -37,6 +39,10 @@ def rule_D8(chk, lib, dirs):
         raise AnalysisBroken("D8: the exit classification does not give 27 directions")
     n = 0
     seen_src = set()
+    by_name = {}
+    for d in lib.decls:
+        if d["kind"] == "function" and d.get("body") is not None and not d.get("dependent"):
+            by_name.setdefault(d["full"].split("(")[0], []).append(d)
     for fn in sorted(fns, key=lambda f: f["full"]):
         key = (fn.get("file"), fn.get("line"))
         chk.analysed(function=fn["full"])
@@ -48,7 +54,7 @@ def rule_D8(chk, lib, dirs):
         for N in itertools.product((1, 2, 3), repeat=3):
             for per in itertools.product((False, True), repeat=3):
                 for index in range(N[0] * N[1] * N[2]):
-                    table = interpret(fn, index, N, per, ncell, sig_to_dir, enums)
+                    table = interpret(fn, index, N, per, ncell, sig_to_dir, enums, by_name)
                     cases += 1
                     ix, iy, iz = index // (N[1] * N[2]), (index // N[2]) % N[1], index % N[2]
                     for d, s in dirs.sig.items():
@@ -84,9 +90,10 @@ def rule_D8(chk, lib, dirs):
     return n
 
 
-def interpret(fn, index, N, per, ncell, sig_to_dir, enums):
-    env = {fn["params"][0]["id"]: index}
-    table = {}
+def interpret(fn, index, N, per, ncell, sig_to_dir, enums, lib=None, env=None, table=None, depth=0):
+    top = env is None
+    env = {fn["params"][0]["id"]: index} if env is None else env
+    table = {} if table is None else table
     OUTSIDE = "OUTSIDE"
 
     def member(e):
@@ -192,6 +199,13 @@ def interpret(fn, index, N, per, ncell, sig_to_dir, enums):
                 o = ev(e["obj"])
                 if isinstance(o, tuple):
                     return o["xyz".index(e["n"])]
+            if lib is not None and e.get("fn") and not e.get("op") and depth < 4:
+                if not isinstance(lib, dict):
+                    raise AnalysisBroken("D8: callee index missing")
+                cands = [d for d in lib.get(e["fn"], ()) if len(d["params"]) == len(e["a"])]
+                if cands:
+                    sub_env = {p_["id"]: ev(a_) for p_, a_ in zip(cands[0]["params"], e["a"]) if "id" in p_}
+                    return interpret(cands[0], index, N, per, ncell, sig_to_dir, enums, lib, sub_env, table, depth + 1)
         raise AnalysisBroken("D8: expression `%s` (line %s) is not integer index arithmetic" % (C.pretty(e)[:60], e.get("l")))
 
     def is_int_type(t):
@@ -251,7 +265,7 @@ def interpret(fn, index, N, per, ncell, sig_to_dir, enums):
         elif k == "Break":
             raise _Break()
         elif k == "Return":
-            raise _Ret()
+            raise _Ret(ev(s["x"]) if (s.get("x") is not None and not top) else None)
         elif k == "Null":
             return
         else:
@@ -267,8 +281,11 @@ def interpret(fn, index, N, per, ncell, sig_to_dir, enums):
             raise AnalysisBroken("D8: statement at line %s of create_subgrid is not part of the wiring" % s.get("l"))
     try:
         run(fn["body"])
-    except _Ret:
-        pass
+    except _Ret as r:
+        if not top:
+            return r.v
+    if not top:
+        return None
     return table
 
 
